@@ -336,7 +336,7 @@ Proof. intros H. cbn [scrub_form]. unfold scrub_int. apply Z.ltb_lt in H. now re
 (* a single integer: always its decimal text - also for a lone introducer 38/48/58 and for 0 *)
 Lemma pgs_single z : pgs_items [IInt z] true = OK [dec z].
 Proof.
-  unfold pgs_items. cbn [map norm_item pgs_loop intro_kind].
+  unfold pgs_items. cbn [map norm_item norm_item_pgs pgs_loop intro_kind].
   destruct (item_is_intro (IInt z)); cbn [andb bind app keep_group orb]; reflexivity.
 Qed.
 
@@ -965,7 +965,8 @@ Qed.
 
 (* --- the part of parse_rgb_string after the function name --- *)
 Definition parse_body (is_rgb : bool) (comp : component) (r1 : str) : rgbres :=
-    match read_num (skip_space (open_bracket r1)) with
+    let '(ob, r1') := open_bracket r1 in
+    match read_num (skip_space r1') with
     | None => RNoMatch
     | Some (v1, r2) =>
       let three :=
@@ -977,7 +978,7 @@ Definition parse_body (is_rgb : bool) (comp : component) (r1 : str) : rgbres :=
               match skip_space r4 with
               | 44%N :: r5 =>
                 match read_num (skip_space r5) with
-                | Some (v3, r6) => if close_ok r6 then Some (v1, v2, v3) else None
+                | Some (v3, r6) => if close_ok ob r6 then Some (v1, v2, v3) else None
                 | None => None end
               | _ => None end
             | None => None end
@@ -987,7 +988,7 @@ Definition parse_body (is_rgb : bool) (comp : component) (r1 : str) : rgbres :=
       | Some (Some a, Some b, Some c) => RTexts (rgb3 a b c comp)
       | Some _ => RBad
       | None =>
-        if close_ok r2 then
+        if close_ok ob r2 then
           match v1 with
           | Some v => RTexts (if is_rgb then rgb1 v comp else color256 v comp)
           | None => RBad end
@@ -1013,9 +1014,41 @@ Proof. intros [-> | [-> ->]]; [destruct comp|]; destruct body; reflexivity. Qed.
 (* --- layouts --- *)
 Definition COMMA : char := 44%N.
 Definition RPAR : char := 41%N.
+Definition NL : char := 10%N.
 Definition is_bracket (c : char) : bool := ((c =? 91) || (c =? 40) || (c =? 41))%N.
-Definition open_br (ob : str) : bool := match ob with [] => true | [c] => is_bracket c | _ => false end.
-Definition close_br (cb : str) : bool := match cb with [] => true | [c] => ((c =? 41) || (c =? 93))%N | _ => false end.
+(* the optional bracket around the value(s) and its counterpart: none/none, '[' ']', '(' ')' *)
+Definition bracket_pair (ob cb : str) : bool :=
+  match ob, cb with
+  | [], [] => true
+  | [o], [c] => (((o =? 91) && (c =? 93)) || ((o =? 40) && (c =? 41)))%N
+  | _, _ => false
+  end.
+(* what the pattern admitted before the repair (known_findings F31), each side on its own:
+   an optional opening character from [\[\()] - which contains ')' - and an optional closing ')' or ']' *)
+Definition old_open (ob : str) : bool := match ob with [] => true | [c] => is_bracket c | _ => false end.
+Definition old_close (cb : str) : bool := match cb with [] => true | [c] => ((c =? 41) || (c =? 93))%N | _ => false end.
+(* what open_bracket reports for an opening of the layout *)
+Definition ob_char (ob : str) : option char := match ob with [c] => Some c | _ => None end.
+
+Lemma bracket_pair_cases ob cb : bracket_pair ob cb = true ->
+  (ob = [] /\ cb = []) \/ (ob = [91%N] /\ cb = [93%N]) \/ (ob = [40%N] /\ cb = [41%N]).
+Proof.
+  destruct ob as [|o [|o' ob']]; destruct cb as [|c [|c' cb']]; cbn [bracket_pair]; try discriminate; auto.
+  intros H. apply orb_true_iff in H as [H|H]; apply andb_true_iff in H as [Ho Hc];
+    apply N.eqb_eq in Ho; apply N.eqb_eq in Hc; subst; auto.
+Qed.
+Lemma old_open_cases ob : old_open ob = true -> ob = [] \/ ob = [91%N] \/ ob = [40%N] \/ ob = [41%N].
+Proof.
+  destruct ob as [|o [|o' ob']]; cbn [old_open]; try discriminate; auto. unfold is_bracket.
+  rewrite !orb_true_iff, !N.eqb_eq. intros [[->| ->]| ->]; auto.
+Qed.
+Lemma old_close_cases cb : old_close cb = true -> cb = [] \/ cb = [41%N] \/ cb = [93%N].
+Proof.
+  destruct cb as [|c [|c' cb']]; cbn [old_close]; try discriminate; auto.
+  rewrite !orb_true_iff, !N.eqb_eq. intros [->| ->]; auto.
+Qed.
+Lemma bracket_pair_old ob cb : bracket_pair ob cb = true -> old_open ob = true /\ old_close cb = true.
+Proof. intros H. destruct (bracket_pair_cases ob cb H) as [[-> ->] | [[-> ->] | [-> ->]]]; split; reflexivity. Qed.
 
 Lemma space_delim c : is_re_space c = true -> delim c = true.
 Proof.
@@ -1034,8 +1067,9 @@ Proof.
     now apply andb_true_iff in Hsp' as [? _].
 Qed.
 
-Lemma open_bracket_app ob sp t (Y : str) : open_br ob = true -> spaces sp = true -> tok_wf t = true ->
-  open_bracket (ob ++ sp ++ tok_text t ++ Y) = sp ++ tok_text t ++ Y.
+(* an opening '[' or '(' (or none) in front of blanks and a number is taken and reported *)
+Lemma open_bracket_app ob sp t (Y : str) : ob = [] \/ ob = [91%N] \/ ob = [40%N] -> spaces sp = true -> tok_wf t = true ->
+  open_bracket (ob ++ sp ++ tok_text t ++ Y) = (ob_char ob, sp ++ tok_text t ++ Y).
 Proof.
   intros Hob Hsp Hwf.
   assert (Hfirst : exists c r, sp ++ tok_text t ++ Y = c :: r /\ is_bracket c = false).
@@ -1045,93 +1079,218 @@ Proof.
     - cbn [app]. eexists _, _. split; [reflexivity|]. apply space_not_bracket.
       unfold spaces in Hsp. cbn [forallb] in Hsp. now apply andb_true_iff in Hsp as [? _]. }
   destruct Hfirst as (c & r & E & Hc). rewrite E.
-  destruct ob as [|b [|b' ob']]; cbn [open_br] in Hob; try discriminate; cbn [app open_bracket].
-  - unfold is_bracket in Hc. now rewrite Hc.
-  - unfold is_bracket in Hob. now rewrite Hob.
+  destruct Hob as [-> | [-> | ->]]; cbn [app ob_char]; [|reflexivity..].
+  unfold is_bracket in Hc. apply orb_false_iff in Hc as [Hc _]. unfold open_bracket. now rewrite Hc.
 Qed.
 
-Lemma close_ok_layout sp cb : spaces sp = true -> close_br cb = true -> close_ok (sp ++ cb ++ [RPAR]) = true.
+(* the tail  blanks, closing bracket, ')' :  accepted exactly when the closing bracket is the counterpart *)
+Lemma close_ok_layout sp ob cb : spaces sp = true -> ob = [] \/ ob = [91%N] \/ ob = [40%N] -> old_close cb = true ->
+  close_ok (ob_char ob) (sp ++ cb ++ [RPAR]) = bracket_pair ob cb.
 Proof.
-  intros Hsp Hcb. destruct cb as [|c [|c' cb']]; cbn [close_br] in Hcb; try discriminate.
-  - cbn [app]. unfold close_ok. rewrite skip_space_app by auto. reflexivity.
-  - apply orb_true_iff in Hcb as [E|E]; apply N.eqb_eq in E; subst c; cbn [app];
-      unfold close_ok; rewrite skip_space_app by auto; reflexivity.
+  intros Hsp Hob Hcb. unfold close_ok.
+  destruct (old_close_cases cb Hcb) as [-> | [-> | ->]]; cbn [app];
+    rewrite skip_space_app by (auto; reflexivity);
+    destruct Hob as [-> | [-> | ->]]; reflexivity.
 Qed.
-
-Lemma close_first cb : close_br cb = true ->
-  exists d Y, cb ++ [RPAR] = d :: Y /\ delim d = true /\ is_re_space d = false /\ (d =? 44)%N = false.
+(* ... and never when anything - such as a newline - follows the final ')' *)
+Lemma close_ok_trailing sp ob cb (x : char) : spaces sp = true -> bracket_pair ob cb = true ->
+  close_ok (ob_char ob) (sp ++ cb ++ [RPAR; x]) = false.
 Proof.
-  intros Hcb. destruct cb as [|c [|c' cb']]; cbn [close_br] in Hcb; try discriminate; cbn [app].
-  - exists RPAR, []. repeat split.
-  - exists c, [RPAR]. apply orb_true_iff in Hcb as [E|E]; apply N.eqb_eq in E; subst c; repeat split.
+  intros Hsp Hp. unfold close_ok.
+  destruct (bracket_pair_cases ob cb Hp) as [[-> ->] | [[-> ->] | [-> ->]]]; cbn [app];
+    rewrite skip_space_app by (auto; reflexivity); cbn [ob_char]; cbn; rewrite ?andb_false_r; reflexivity.
 Qed.
 
-Section Layout3.
-  Variables (ob sp0 sp1 sp2 sp3 sp4 sp5 cb : str) (t1 t2 t3 : numtok) (comp : component).
-  Hypothesis (Hob : open_br ob = true) (Hcb : close_br cb = true).
+Lemma close_first cb (Z : str) : old_close cb = true ->
+  exists d Y, cb ++ RPAR :: Z = d :: Y /\ (d = 41%N \/ d = 93%N).
+Proof.
+  intros Hcb. destruct (old_close_cases cb Hcb) as [-> | [-> | ->]]; cbn [app]; eexists _, _; split; try reflexivity; auto.
+Qed.
+Lemma close_char_props d : d = 41%N \/ d = 93%N -> delim d = true /\ is_re_space d = false.
+Proof. intros [-> | ->]; split; reflexivity. Qed.
+
+(* a tail that begins with a comma is not a closing tail *)
+Lemma close_ok_comma ob sp (Y : str) : spaces sp = true -> close_ok ob (sp ++ COMMA :: Y) = false.
+Proof.
+  intros Hsp. unfold close_ok. rewrite skip_space_app by (auto; reflexivity).
+  destruct ob as [c|]; [destruct (c =? 91)%N|]; reflexivity.
+Qed.
+
+(* a number cannot begin with ')' *)
+Lemma read_num_rpar (Y : str) : read_num (RPAR :: Y) = None.
+Proof. reflexivity. Qed.
+
+Section Shape3.
+  Variables (ob sp0 sp1 sp2 sp3 sp4 sp5 : str) (t1 t2 t3 : numtok) (comp : component) (d : char) (Y : str).
+  Hypothesis (Hob : ob = [] \/ ob = [91%N] \/ ob = [40%N]).
   Hypothesis (H0 : spaces sp0 = true) (H1 : spaces sp1 = true) (H2 : spaces sp2 = true)
              (H3 : spaces sp3 = true) (H4 : spaces sp4 = true) (H5 : spaces sp5 = true).
   Hypothesis (W1 : tok_wf t1 = true) (W2 : tok_wf t2 = true) (W3 : tok_wf t3 = true).
+  Hypothesis (Hd : delim d = true).
 
-  Definition layout3 : str :=
-    ob ++ sp0 ++ tok_text t1 ++ sp1 ++ COMMA :: sp2 ++ tok_text t2 ++ sp3 ++ COMMA :: sp4 ++ tok_text t3 ++ sp5 ++ cb ++ [RPAR].
-
-  Lemma parse_body_layout3 :
-    parse_body true comp layout3 =
-    match tok_val t1, tok_val t2, tok_val t3 with
-    | Some a, Some b, Some c => RTexts (rgb3 a b c comp)
-    | _, _, _ => RBad
-    end.
+  (* three numbers with their blanks and commas, then any tail d :: Y: all hinges on close_ok of that tail *)
+  Lemma parse_body_shape3 :
+    parse_body true comp
+      (ob ++ sp0 ++ tok_text t1 ++ sp1 ++ COMMA :: sp2 ++ tok_text t2 ++ sp3 ++ COMMA :: sp4 ++ tok_text t3 ++ sp5 ++ d :: Y) =
+    if close_ok (ob_char ob) (sp5 ++ d :: Y) then
+      match tok_val t1, tok_val t2, tok_val t3 with
+      | Some a, Some b, Some c => RTexts (rgb3 a b c comp)
+      | _, _, _ => RBad
+      end
+    else RNoMatch.
   Proof.
-    unfold parse_body, layout3.
+    unfold parse_body.
     rewrite open_bracket_app by assumption.
     rewrite (read_tok_sp sp0 t1 sp1 COMMA) by (auto; reflexivity). cbv beta iota zeta.
     rewrite (skip_space_app sp1 COMMA) by (auto; reflexivity). unfold COMMA at 1. cbv beta iota.
     rewrite (read_tok_sp sp2 t2 sp3 COMMA) by (auto; reflexivity). cbv beta iota.
     rewrite (skip_space_app sp3 COMMA) by (auto; reflexivity). unfold COMMA at 1. cbv beta iota.
-    destruct (close_first cb Hcb) as (d & Y & E & Hd & _ & _).
-    rewrite E. rewrite (read_tok_sp sp4 t3 sp5 d Y) by auto. cbv beta iota. rewrite <- E.
-    rewrite close_ok_layout by assumption.
-    destruct (tok_val t1), (tok_val t2), (tok_val t3); reflexivity.
+    rewrite (read_tok_sp sp4 t3 sp5 d Y) by auto. cbv beta iota.
+    destruct (close_ok (ob_char ob) (sp5 ++ d :: Y)).
+    - destruct (tok_val t1), (tok_val t2), (tok_val t3); reflexivity.
+    - rewrite close_ok_comma by assumption. reflexivity.
+  Qed.
+End Shape3.
+
+Section Shape1.
+  Variables (ob sp0 sp1 : str) (t : numtok) (comp : component) (d : char) (Y : str).
+  Hypothesis (Hob : ob = [] \/ ob = [91%N] \/ ob = [40%N]).
+  Hypothesis (H0 : spaces sp0 = true) (H1 : spaces sp1 = true) (W : tok_wf t = true).
+  Hypothesis (Hd : d = 41%N \/ d = 93%N).
+
+  Lemma parse_body_shape1 is_rgb :
+    parse_body is_rgb comp (ob ++ sp0 ++ tok_text t ++ sp1 ++ d :: Y) =
+    if close_ok (ob_char ob) (sp1 ++ d :: Y) then
+      match tok_val t with
+      | Some v => RTexts (if is_rgb then rgb1 v comp else color256 v comp)
+      | None => RBad
+      end
+    else RNoMatch.
+  Proof.
+    unfold parse_body.
+    rewrite open_bracket_app by assumption.
+    destruct (close_char_props d Hd) as [Hd1 Hd2].
+    rewrite (read_tok_sp sp0 t sp1 d Y) by auto. cbv beta iota zeta.
+    rewrite (skip_space_app sp1 d Y) by auto.
+    destruct is_rgb; [|reflexivity].
+    destruct Hd as [-> | ->]; reflexivity.
+  Qed.
+End Shape1.
+
+Definition layout3 (ob sp0 sp1 sp2 sp3 sp4 sp5 cb : str) (t1 t2 t3 : numtok) : str :=
+  ob ++ sp0 ++ tok_text t1 ++ sp1 ++ COMMA :: sp2 ++ tok_text t2 ++ sp3 ++ COMMA :: sp4 ++ tok_text t3 ++ sp5 ++ cb ++ [RPAR].
+Definition layout1 (ob sp0 sp1 cb : str) (t : numtok) : str := ob ++ sp0 ++ tok_text t ++ sp1 ++ cb ++ [RPAR].
+
+(* the layouts followed by one more character *)
+Lemma layout3_snoc ob sp0 sp1 sp2 sp3 sp4 sp5 cb t1 t2 t3 (x : char) :
+  layout3 ob sp0 sp1 sp2 sp3 sp4 sp5 cb t1 t2 t3 ++ [x] =
+  ob ++ sp0 ++ tok_text t1 ++ sp1 ++ COMMA :: sp2 ++ tok_text t2 ++ sp3 ++ COMMA :: sp4 ++ tok_text t3 ++ sp5 ++ cb ++ [RPAR; x].
+Proof. unfold layout3. repeat (rewrite <- ?app_assoc, <- ?app_comm_cons). reflexivity. Qed.
+Lemma layout1_snoc ob sp0 sp1 cb t (x : char) :
+  layout1 ob sp0 sp1 cb t ++ [x] = ob ++ sp0 ++ tok_text t ++ sp1 ++ cb ++ [RPAR; x].
+Proof. unfold layout1. repeat (rewrite <- ?app_assoc, <- ?app_comm_cons). reflexivity. Qed.
+
+Section Layout3.
+  Variables (ob sp0 sp1 sp2 sp3 sp4 sp5 cb : str) (t1 t2 t3 : numtok) (comp : component).
+  Hypothesis (H0 : spaces sp0 = true) (H1 : spaces sp1 = true) (H2 : spaces sp2 = true)
+             (H3 : spaces sp3 = true) (H4 : spaces sp4 = true) (H5 : spaces sp5 = true).
+  Hypothesis (W1 : tok_wf t1 = true) (W2 : tok_wf t2 = true) (W3 : tok_wf t3 = true).
+
+  (* for every opening / closing the defective pattern admitted: accepted exactly when they pair *)
+  Lemma parse_body_layout3_gen : old_open ob = true -> old_close cb = true ->
+    parse_body true comp (layout3 ob sp0 sp1 sp2 sp3 sp4 sp5 cb t1 t2 t3) =
+    if bracket_pair ob cb then
+      match tok_val t1, tok_val t2, tok_val t3 with
+      | Some a, Some b, Some c => RTexts (rgb3 a b c comp)
+      | _, _, _ => RBad
+      end
+    else RNoMatch.
+  Proof.
+    intros Hob Hcb. unfold layout3.
+    destruct (old_open_cases ob Hob) as [Hob' | [Hob' | [Hob' | ->]]].
+    1-3: destruct (close_first cb [] Hcb) as (d & Y & E & Hd); rewrite E;
+         rewrite parse_body_shape3 by (auto; apply (close_char_props d Hd));
+         rewrite <- E; rewrite close_ok_layout by auto; reflexivity.
+    (* a leading ')' : no number follows "rgb(" *)
+    assert (Hp : bracket_pair [41%N] cb = false) by (destruct cb as [|c [|c' cb']]; reflexivity).
+    rewrite Hp. unfold parse_body. reflexivity.
+  Qed.
+
+  Lemma parse_body_layout3 : bracket_pair ob cb = true ->
+    parse_body true comp (layout3 ob sp0 sp1 sp2 sp3 sp4 sp5 cb t1 t2 t3) =
+    match tok_val t1, tok_val t2, tok_val t3 with
+    | Some a, Some b, Some c => RTexts (rgb3 a b c comp)
+    | _, _, _ => RBad
+    end.
+  Proof.
+    intros Hp. destruct (bracket_pair_old ob cb Hp) as [Hob Hcb].
+    rewrite parse_body_layout3_gen by assumption. now rewrite Hp.
+  Qed.
+
+  Lemma parse_body_layout3_trailing (x : char) : bracket_pair ob cb = true ->
+    parse_body true comp (layout3 ob sp0 sp1 sp2 sp3 sp4 sp5 cb t1 t2 t3 ++ [x]) = RNoMatch.
+  Proof.
+    intros Hp. destruct (bracket_pair_old ob cb Hp) as [_ Hcb].
+    assert (Hob : ob = [] \/ ob = [91%N] \/ ob = [40%N])
+      by (destruct (bracket_pair_cases ob cb Hp) as [[-> _] | [[-> _] | [-> _]]]; auto).
+    rewrite layout3_snoc.
+    destruct (close_first cb [x] Hcb) as (d & Y & E & Hd). change [RPAR; x] with (RPAR :: [x]). rewrite E.
+    rewrite parse_body_shape3 by (auto; apply (close_char_props d Hd)).
+    rewrite <- E. change (RPAR :: [x]) with [RPAR; x]. now rewrite close_ok_trailing by assumption.
   Qed.
 End Layout3.
 
 Section Layout1.
   Variables (ob sp0 sp1 cb : str) (t : numtok) (comp : component).
-  Hypothesis (Hob : open_br ob = true) (Hcb : close_br cb = true).
   Hypothesis (H0 : spaces sp0 = true) (H1 : spaces sp1 = true) (W : tok_wf t = true).
 
-  Definition layout1 : str := ob ++ sp0 ++ tok_text t ++ sp1 ++ cb ++ [RPAR].
+  Lemma parse_body_layout1_gen is_rgb : old_open ob = true -> old_close cb = true ->
+    parse_body is_rgb comp (layout1 ob sp0 sp1 cb t) =
+    if bracket_pair ob cb then
+      match tok_val t with
+      | Some v => RTexts (if is_rgb then rgb1 v comp else color256 v comp)
+      | None => RBad
+      end
+    else RNoMatch.
+  Proof.
+    intros Hob Hcb. unfold layout1.
+    destruct (old_open_cases ob Hob) as [Hob' | [Hob' | [Hob' | ->]]].
+    1-3: destruct (close_first cb [] Hcb) as (d & Y & E & Hd); rewrite E;
+         rewrite parse_body_shape1 by auto;
+         rewrite <- E; rewrite close_ok_layout by auto; reflexivity.
+    assert (Hp : bracket_pair [41%N] cb = false) by (destruct cb as [|c [|c' cb']]; reflexivity).
+    rewrite Hp. unfold parse_body. reflexivity.
+  Qed.
 
-  Lemma parse_body_layout1 is_rgb :
-    parse_body is_rgb comp layout1 =
+  Lemma parse_body_layout1 is_rgb : bracket_pair ob cb = true ->
+    parse_body is_rgb comp (layout1 ob sp0 sp1 cb t) =
     match tok_val t with
     | Some v => RTexts (if is_rgb then rgb1 v comp else color256 v comp)
     | None => RBad
     end.
   Proof.
-    unfold parse_body, layout1.
-    rewrite open_bracket_app by assumption.
-    assert (Hc : close_ok (sp1 ++ cb ++ [RPAR]) = true) by now apply close_ok_layout.
-    assert (Hcases : exists d Y, cb ++ [RPAR] = d :: Y /\ (d = 41%N \/ d = 93%N)).
-    { destruct cb as [|c [|c' cb']]; cbn [close_br] in Hcb; try discriminate; cbn [app].
-      - exists RPAR, []. auto.
-      - exists c, [RPAR]. apply orb_true_iff in Hcb as [E|E]; apply N.eqb_eq in E; auto. }
-    destruct Hcases as (d & Y & E & Hd). rewrite E in *.
-    assert (Hdd : delim d = true /\ is_re_space d = false) by (destruct Hd as [-> | ->]; split; reflexivity).
-    destruct Hdd as [Hd1 Hd2].
-    rewrite (read_tok_sp sp0 t sp1 d Y) by auto. cbv beta iota zeta.
-    rewrite (skip_space_app sp1 d Y) by auto. rewrite Hc.
-    destruct is_rgb; [|reflexivity].
-    destruct Hd as [-> | ->]; reflexivity.
+    intros Hp. destruct (bracket_pair_old ob cb Hp) as [Hob Hcb].
+    rewrite parse_body_layout1_gen by assumption. now rewrite Hp.
+  Qed.
+
+  Lemma parse_body_layout1_trailing is_rgb (x : char) : bracket_pair ob cb = true ->
+    parse_body is_rgb comp (layout1 ob sp0 sp1 cb t ++ [x]) = RNoMatch.
+  Proof.
+    intros Hp. destruct (bracket_pair_old ob cb Hp) as [_ Hcb].
+    assert (Hob : ob = [] \/ ob = [91%N] \/ ob = [40%N])
+      by (destruct (bracket_pair_cases ob cb Hp) as [[-> _] | [[-> _] | [-> _]]]; auto).
+    rewrite layout1_snoc.
+    destruct (close_first cb [x] Hcb) as (d & Y & E & Hd). change [RPAR; x] with (RPAR :: [x]). rewrite E.
+    rewrite parse_body_shape1 by auto.
+    rewrite <- E. change (RPAR :: [x]) with [RPAR; x]. now rewrite close_ok_trailing by assumption.
   Qed.
 End Layout1.
 
-(* C14-rgb-layout: every layout the pattern admits - optional opening '[' '(' ')' and closing ')' ']',
-   blanks around the numbers, decimal or 0x-hex numbers - gives the builder's result; hex digits
-   without 0x are rejected (RBad, ValueError in Python) *)
+(* C14-rgb-layout: every layout the pattern admits - an optional opening '[' or '(' closed by its own
+   counterpart ']' / ')', blanks around the numbers, decimal or 0x-hex numbers - gives the builder's
+   result; hex digits without 0x are rejected (RBad, ValueError in Python) *)
 Theorem parse_rgb_layout3 pre comp ob sp0 sp1 sp2 sp3 sp4 sp5 cb t1 t2 t3 :
-  prefix_of pre comp -> open_br ob = true -> close_br cb = true ->
+  prefix_of pre comp -> bracket_pair ob cb = true ->
   spaces sp0 = true -> spaces sp1 = true -> spaces sp2 = true ->
   spaces sp3 = true -> spaces sp4 = true -> spaces sp5 = true ->
   tok_wf t1 = true -> tok_wf t2 = true -> tok_wf t3 = true ->
@@ -1143,14 +1302,14 @@ Theorem parse_rgb_layout3 pre comp ob sp0 sp1 sp2 sp3 sp4 sp5 cb t1 t2 t3 :
 Proof. intros. rewrite (parse_rgb_fn_rgb pre comp) by assumption. now apply parse_body_layout3. Qed.
 
 Theorem parse_rgb_layout1 pre comp ob sp0 sp1 cb t :
-  prefix_of pre comp -> open_br ob = true -> close_br cb = true ->
+  prefix_of pre comp -> bracket_pair ob cb = true ->
   spaces sp0 = true -> spaces sp1 = true -> tok_wf t = true ->
   parse_rgb_string (pre ++ S_ "rgb(" ++ layout1 ob sp0 sp1 cb t) =
   match tok_val t with Some v => RTexts (rgb1 v comp) | None => RBad end.
 Proof. intros. rewrite (parse_rgb_fn_rgb pre comp) by assumption. now apply parse_body_layout1. Qed.
 
 Theorem parse_color256_layout pre comp (british : bool) ob sp0 sp1 cb t :
-  prefix_of pre comp -> open_br ob = true -> close_br cb = true ->
+  prefix_of pre comp -> bracket_pair ob cb = true ->
   spaces sp0 = true -> spaces sp1 = true -> tok_wf t = true ->
   parse_rgb_string (pre ++ (if british then S_ "colour256(" else S_ "color256(") ++ layout1 ob sp0 sp1 cb t) =
   match tok_val t with Some v => RTexts (color256 v comp) | None => RBad end.
@@ -1159,15 +1318,141 @@ Proof.
     now apply parse_body_layout1.
 Qed.
 
+(* C14-rgb-brackets (the repair of F31): the brackets the defective pattern took one by one - an
+   opening '[' '(' or ')' and a closing ')' or ']', each optional - are refused unless they form a
+   pair; in full generality (blanks anywhere the pattern allows them, any numbers) *)
+Theorem parse_rgb_mismatched_brackets pre comp ob cb :
+  prefix_of pre comp -> old_open ob = true -> old_close cb = true -> bracket_pair ob cb = false ->
+  (forall sp0 sp1 sp2 sp3 sp4 sp5 t1 t2 t3,
+     spaces sp0 = true -> spaces sp1 = true -> spaces sp2 = true ->
+     spaces sp3 = true -> spaces sp4 = true -> spaces sp5 = true ->
+     tok_wf t1 = true -> tok_wf t2 = true -> tok_wf t3 = true ->
+     parse_rgb_string (pre ++ S_ "rgb(" ++ layout3 ob sp0 sp1 sp2 sp3 sp4 sp5 cb t1 t2 t3) = RNoMatch) /\
+  (forall sp0 sp1 t, spaces sp0 = true -> spaces sp1 = true -> tok_wf t = true ->
+     parse_rgb_string (pre ++ S_ "rgb(" ++ layout1 ob sp0 sp1 cb t) = RNoMatch) /\
+  (forall (british : bool) sp0 sp1 t, spaces sp0 = true -> spaces sp1 = true -> tok_wf t = true ->
+     parse_rgb_string (pre ++ (if british then S_ "colour256(" else S_ "color256(") ++ layout1 ob sp0 sp1 cb t) = RNoMatch).
+Proof.
+  intros Hpre Hob Hcb Hp. split; [|split].
+  - intros. rewrite (parse_rgb_fn_rgb pre comp) by assumption.
+    rewrite parse_body_layout3_gen by assumption. now rewrite Hp.
+  - intros. rewrite (parse_rgb_fn_rgb pre comp) by assumption.
+    rewrite parse_body_layout1_gen by assumption. now rewrite Hp.
+  - intros. destruct british; [rewrite (parse_rgb_fn_colour pre comp) | rewrite (parse_rgb_fn_color pre comp)]; try assumption;
+      rewrite parse_body_layout1_gen by assumption; now rewrite Hp.
+Qed.
+
+(* in particular ')' is no opening bracket, whatever closes *)
+Corollary parse_rgb_leading_rparen pre comp cb :
+  prefix_of pre comp -> old_close cb = true ->
+  (forall sp0 sp1 sp2 sp3 sp4 sp5 t1 t2 t3,
+     spaces sp0 = true -> spaces sp1 = true -> spaces sp2 = true ->
+     spaces sp3 = true -> spaces sp4 = true -> spaces sp5 = true ->
+     tok_wf t1 = true -> tok_wf t2 = true -> tok_wf t3 = true ->
+     parse_rgb_string (pre ++ S_ "rgb(" ++ layout3 [RPAR] sp0 sp1 sp2 sp3 sp4 sp5 cb t1 t2 t3) = RNoMatch) /\
+  (forall sp0 sp1 t, spaces sp0 = true -> spaces sp1 = true -> tok_wf t = true ->
+     parse_rgb_string (pre ++ S_ "rgb(" ++ layout1 [RPAR] sp0 sp1 cb t) = RNoMatch) /\
+  (forall (british : bool) sp0 sp1 t, spaces sp0 = true -> spaces sp1 = true -> tok_wf t = true ->
+     parse_rgb_string (pre ++ (if british then S_ "colour256(" else S_ "color256(") ++ layout1 [RPAR] sp0 sp1 cb t) = RNoMatch).
+Proof.
+  intros Hpre Hcb. apply (parse_rgb_mismatched_brackets pre comp [RPAR] cb); auto.
+  destruct cb as [|c [|c' cb']]; reflexivity.
+Qed.
+
+(* the mismatched combinations: there are exactly nine of them among the twelve the old pattern took *)
+Example mismatched_combinations :
+  let opens := [[]; S_ "["; S_ "("; S_ ")"] in let closes := [[]; S_ ")"; S_ "]"] in
+  forallb old_open opens = true /\ forallb old_close closes = true /\
+  length (filter (fun p => negb (bracket_pair (fst p) (snd p))) (list_prod opens closes)) = 9%nat /\
+  filter (fun p => bracket_pair (fst p) (snd p)) (list_prod opens closes) = [([], []); (S_ "[", S_ "]"); (S_ "(", S_ ")")].
+Proof. cbv zeta. repeat split; vm_compute; reflexivity. Qed.
+
+(* C14-rgb-end (the repair of F32): the string ends right after the final ')'; one more character -
+   a newline in particular, which '$' would have let pass - and the string is no rgb()/color256() string *)
+Theorem parse_rgb_trailing_char pre comp ob cb (x : char) :
+  prefix_of pre comp -> bracket_pair ob cb = true ->
+  (forall sp0 sp1 sp2 sp3 sp4 sp5 t1 t2 t3,
+     spaces sp0 = true -> spaces sp1 = true -> spaces sp2 = true ->
+     spaces sp3 = true -> spaces sp4 = true -> spaces sp5 = true ->
+     tok_wf t1 = true -> tok_wf t2 = true -> tok_wf t3 = true ->
+     parse_rgb_string ((pre ++ S_ "rgb(" ++ layout3 ob sp0 sp1 sp2 sp3 sp4 sp5 cb t1 t2 t3) ++ [x]) = RNoMatch) /\
+  (forall sp0 sp1 t, spaces sp0 = true -> spaces sp1 = true -> tok_wf t = true ->
+     parse_rgb_string ((pre ++ S_ "rgb(" ++ layout1 ob sp0 sp1 cb t) ++ [x]) = RNoMatch) /\
+  (forall (british : bool) sp0 sp1 t, spaces sp0 = true -> spaces sp1 = true -> tok_wf t = true ->
+     parse_rgb_string ((pre ++ (if british then S_ "colour256(" else S_ "color256(") ++ layout1 ob sp0 sp1 cb t) ++ [x]) = RNoMatch).
+Proof.
+  intros Hpre Hp. split; [|split]; intros.
+  - rewrite <- !app_assoc. rewrite (parse_rgb_fn_rgb pre comp) by assumption. now apply parse_body_layout3_trailing.
+  - rewrite <- !app_assoc. rewrite (parse_rgb_fn_rgb pre comp) by assumption. now apply parse_body_layout1_trailing.
+  - rewrite <- !app_assoc.
+    destruct british; [rewrite (parse_rgb_fn_colour pre comp) | rewrite (parse_rgb_fn_color pre comp)]; try assumption;
+      now apply parse_body_layout1_trailing.
+Qed.
+
+Theorem parse_rgb_trailing_newline pre comp ob cb :
+  prefix_of pre comp -> bracket_pair ob cb = true ->
+  (forall sp0 sp1 sp2 sp3 sp4 sp5 t1 t2 t3,
+     spaces sp0 = true -> spaces sp1 = true -> spaces sp2 = true ->
+     spaces sp3 = true -> spaces sp4 = true -> spaces sp5 = true ->
+     tok_wf t1 = true -> tok_wf t2 = true -> tok_wf t3 = true ->
+     parse_rgb_string ((pre ++ S_ "rgb(" ++ layout3 ob sp0 sp1 sp2 sp3 sp4 sp5 cb t1 t2 t3) ++ [NL]) = RNoMatch) /\
+  (forall sp0 sp1 t, spaces sp0 = true -> spaces sp1 = true -> tok_wf t = true ->
+     parse_rgb_string ((pre ++ S_ "rgb(" ++ layout1 ob sp0 sp1 cb t) ++ [NL]) = RNoMatch) /\
+  (forall (british : bool) sp0 sp1 t, spaces sp0 = true -> spaces sp1 = true -> tok_wf t = true ->
+     parse_rgb_string ((pre ++ (if british then S_ "colour256(" else S_ "color256(") ++ layout1 ob sp0 sp1 cb t) ++ [NL]) = RNoMatch).
+Proof. intros Hpre Hp. exact (parse_rgb_trailing_char pre comp ob cb NL Hpre Hp). Qed.
+
+(* a newline BEFORE the closing bracket / final ')' is ordinary white space (\s) and stays accepted *)
+Example newline_inside_ex :
+  spaces [NL] = true /\
+  S_ "rgb(" ++ layout3 (S_ "(") [] [] [] [] [] [NL] (S_ ")") (NDec (S_ "1")) (NDec (S_ "2")) (NDec (S_ "3")) = S_ "rgb((1,2,3" ++ NL :: S_ "))" /\
+  parse_rgb_string (S_ "rgb((1,2,3" ++ NL :: S_ "))") = RTexts [S_ "38;2;1;2;3"] /\
+  parse_rgb_string (S_ "rgb(1,2,3" ++ NL :: S_ ")") = RTexts [S_ "38;2;1;2;3"].
+Proof. repeat split; vm_compute; reflexivity. Qed.
+
 Example parse_rgb_layout3_ex :
   let s := S_ "bg_" ++ S_ "rgb(" ++ layout3 (S_ "[") (S_ " ") (S_ "") (S_ "  ") (S_ " ") (S_ "") (S_ " ") (S_ "]")
                                          (NHex (S_ "1f")) (NDec (S_ "007")) (NDec (S_ "300")) in
+  bracket_pair (S_ "[") (S_ "]") = true /\
   s = S_ "bg_rgb([ 0x1f,  007 ,300 ])" /\ parse_rgb_string s = RTexts [S_ "48;2;31;7;255"].
-Proof. cbv zeta. split; vm_compute; reflexivity. Qed.
+Proof. cbv zeta. repeat split; vm_compute; reflexivity. Qed.
 Example parse_rgb_badhex_ex :
   tok_wf (NBadHex (S_ "ff")) = true /\
   parse_rgb_string (S_ "rgb(" ++ layout1 [] [] [] [] (NBadHex (S_ "ff"))) = RBad /\
   S_ "rgb(" ++ layout1 [] [] [] [] (NBadHex (S_ "ff")) = S_ "rgb(ff)".
+Proof. repeat split; vm_compute; reflexivity. Qed.
+(* accepted, as before the repair *)
+Example parse_rgb_paired_ex :
+  parse_rgb_string (S_ "rgb([1,2,3])") = RTexts [S_ "38;2;1;2;3"] /\
+  parse_rgb_string (S_ "rgb((1,2,3))") = RTexts [S_ "38;2;1;2;3"] /\
+  parse_rgb_string (S_ "rgb(1,2,3)") = RTexts [S_ "38;2;1;2;3"] /\
+  parse_rgb_string (S_ "bg_rgb([ 0x1f,  007 ,300 ])") = RTexts [S_ "48;2;31;7;255"] /\
+  parse_rgb_string (S_ "color256([7])") = RTexts [S_ "38;5;7"] /\
+  S_ "rgb(" ++ layout3 (S_ "(") [] [] [] [] [] [] (S_ ")") (NDec (S_ "1")) (NDec (S_ "2")) (NDec (S_ "3")) = S_ "rgb((1,2,3))".
+Proof. repeat split; vm_compute; reflexivity. Qed.
+(* refused since the repair (each of these was accepted by the defective pattern) *)
+Example parse_rgb_mismatched_ex :
+  parse_rgb_string (S_ "rgb()1,2,3)") = RNoMatch /\
+  parse_rgb_string (S_ "rgb(1,2,3))") = RNoMatch /\
+  parse_rgb_string (S_ "rgb([1,2,3)") = RNoMatch /\
+  parse_rgb_string (S_ "rgb((1,2,3])") = RNoMatch /\
+  parse_rgb_string (S_ "rgb(1,2,3])") = RNoMatch /\
+  parse_rgb_string (S_ "rgb((1,2,3)") = RNoMatch /\
+  parse_rgb_string (S_ "color256(7])") = RNoMatch /\
+  parse_rgb_string (S_ "rgb(1,2,3)" ++ [NL]) = RNoMatch /\
+  parse_rgb_string (S_ "color256(7)" ++ [NL]) = RNoMatch /\
+  (* the layouts behind three of them, and the hypotheses of the rejection theorem *)
+  S_ "rgb(" ++ layout3 (S_ ")") [] [] [] [] [] [] [] (NDec (S_ "1")) (NDec (S_ "2")) (NDec (S_ "3")) = S_ "rgb()1,2,3)" /\
+  S_ "rgb(" ++ layout3 (S_ "(") [] [] [] [] [] [] (S_ "]") (NDec (S_ "1")) (NDec (S_ "2")) (NDec (S_ "3")) = S_ "rgb((1,2,3])" /\
+  S_ "color256(" ++ layout1 [] [] [] (S_ "]") (NDec (S_ "7")) = S_ "color256(7])" /\
+  old_open (S_ ")") = true /\ old_open (S_ "(") = true /\ old_close (S_ "]") = true /\ old_close [] = true /\
+  bracket_pair (S_ ")") [] = false /\ bracket_pair (S_ "(") (S_ "]") = false /\ bracket_pair [] (S_ "]") = false.
+Proof. repeat split; vm_compute; reflexivity. Qed.
+(* so the scrubber now reports them as invalid names *)
+Example scrub_mismatched_ex :
+  scrub (FStr (S_ "rgb([1,2,3)")) = Err ValueError /\ scrub (FStr (S_ "rgb()1,2,3)")) = Err ValueError /\
+  scrub (FStr (S_ "color256(7])")) = Err ValueError /\ scrub (FStr (S_ "rgb(1,2,3)" ++ [NL])) = Err ValueError /\
+  scrub (FStr (S_ "rgb([1,2,3])")) = OK [S_ "38;2;1;2;3"].
 Proof. repeat split; vm_compute; reflexivity. Qed.
 
 (* --- canonical printers --- *)
@@ -1470,12 +1755,13 @@ Qed.
 
 Lemma parse_body_valid is_rgb comp r1 ts : parse_body is_rgb comp r1 = RTexts ts -> forallb valid ts = true.
 Proof.
-  unfold parse_body. destruct (read_num (skip_space (open_bracket r1))) as [[v1 r2]|] eqn:E1; [|discriminate].
+  unfold parse_body. destruct (open_bracket r1) as [ob r1'].
+  destruct (read_num (skip_space r1')) as [[v1 r2]|] eqn:E1; [|discriminate].
   cbv zeta.
   match goal with |- match ?three with _ => _ end = _ -> _ => destruct three as [[[[a|] [b|]] [c|]]|] end;
     try discriminate.
   - intros [= <-]. apply rgb3_valid.
-  - destruct (close_ok r2); [|discriminate]. destruct v1 as [v|]; [|discriminate].
+  - destruct (close_ok ob r2); [|discriminate]. destruct v1 as [v|]; [|discriminate].
     intros [= <-]. apply read_num_nonneg in E1. destruct is_rgb; [apply rgb1_valid | now apply color256_valid].
 Qed.
 
@@ -1675,7 +1961,8 @@ Proof. split; [lia | vm_compute; reflexivity]. Qed.
 Example rgb1_pack_ex : rgb1 (16 * 65536 + 32 * 256 + 48) BG = rgb3 16 32 48 BG.
 Proof. apply rgb1_pack; lia. Qed.
 Example layout_hyps_ex :
-  open_br (S_ "[") = true /\ close_br (S_ "]") = true /\ spaces (S_ "  ") = true /\
+  bracket_pair (S_ "[") (S_ "]") = true /\ bracket_pair (S_ "(") (S_ ")") = true /\ bracket_pair [] [] = true /\
+  spaces (S_ "  ") = true /\
   tok_wf (NHex (S_ "1f")) = true /\ tok_wf (NDec (S_ "007")) = true /\ tok_val (NHex (S_ "1f")) = Some 31.
 Proof. repeat split; vm_compute; reflexivity. Qed.
 Example scrub_rgb_string_ex :
@@ -1832,6 +2119,10 @@ Print Assumptions rgb1_pack.
 Print Assumptions parse_rgb_layout3.
 Print Assumptions parse_rgb_layout1.
 Print Assumptions parse_color256_layout.
+Print Assumptions parse_rgb_mismatched_brackets.
+Print Assumptions parse_rgb_leading_rparen.
+Print Assumptions parse_rgb_trailing_char.
+Print Assumptions parse_rgb_trailing_newline.
 Print Assumptions parse_print_rgb.
 Print Assumptions parse_print_rgb24.
 Print Assumptions parse_print_color256.
